@@ -69,12 +69,19 @@ Proof. intros Hs n. unfold ff_out_as. f_equal. exact (ff_sync_latency sh stages 
 Print Assumptions C17_ff_sync_latency_o_shape.
 
 (* --- FFSynchronizer and the reset of the output domain (Rrst b = the domain's rst is driven to b) ---
-   default flops (reset_less=True) in a sync-reset domain: the reset has no effect at all, so the
-   latency theorems hold whatever the reset does *)
-Theorem C17_ff_reset_less_ignores_reset sh stages init i0 evs :
-  fr_ff (ffr_run sh stages init false true i0 evs) = ff_run sh stages init i0 (erase_rst evs).
-Proof. exact (ffr_reset_less_ignores_reset sh stages init i0 evs). Qed.
+   a default FFSynchronizer (reset_less=True) in ANY output domain -- sync or async reset -- ignores the
+   domain's reset: the run equals the reset-free run on the events with the reset events erased, so
+   the latency theorems above hold whatever the reset does *)
+Theorem C17_ff_reset_less_ignores_reset sh stages init async i0 evs :
+  fr_ff (ffr_run sh stages init async true i0 evs) = ff_run sh stages init i0 (erase_rst evs).
+Proof. exact (ffr_reset_less_ignores_reset sh stages init async i0 evs). Qed.
 Print Assumptions C17_ff_reset_less_ignores_reset.
+
+Example C17_ff_reset_less_example :
+  let evs := [Rrst true; Rrst false; Rrst true; Rev Eo; Rrst false; Rrst true; Rev Eo] in
+  map (fun k => ff_out (fr_ff (ffr_run (Sh 4 false) 2 (Some 3) true true 9 (firstn k evs)))) [0; 3; 4; 6; 7]%nat
+    = [3; 3; 3; 3; 9].
+Proof. vm_compute. reflexivity. Qed.
 
 (* rst never asserted: sync or async reset domain, reset_less or not -- the reset-free model *)
 Theorem C17_ff_no_reset sh stages init async rl i0 evs : rst_never evs = true ->
@@ -101,15 +108,12 @@ Example C17_ff_reset_example :
                                 (evs ++ Rev Eo :: Rrst false :: map Rev (repeat Eo k))))) [0; 1; 2]%nat = [3; 3; 6].
 Proof. vm_compute. repeat split. Qed.
 
-(* the latency clause is FALSE for default (reset_less) flops in an async-reset output domain: the
-   simulator runs the domain's process on every rise of rst, so two rises move the input to the
-   output with no output-clock edge at all (finding F7-async-reset-runs-sync-process) *)
-Theorem C17_ff_async_reset_rise_refuted :
-  exists evs, count_oedges (erase_rst evs) = O /\
-              ff_out (fr_ff (ffr_run (Sh 4 false) 2 (Some 3) true true 9 evs)) = 9 /\
-              ff_out (ff_run (Sh 4 false) 2 (Some 3) 9 (erase_rst evs)) = 3.
-Proof. exact ffr_async_reset_rise_refuted. Qed.
-Print Assumptions C17_ff_async_reset_rise_refuted.
+(* reset_less=False in an async-reset domain: a rise of rst loads init at once, without a clock edge *)
+Theorem C17_ff_async_reset_immediate sh stages init i0 evs : (1 <= stages)%nat ->
+  fr_rst (ffr_run sh stages init true false i0 evs) = false ->
+  ff_out (fr_ff (ffr_run sh stages init true false i0 (evs ++ [Rrst true]))) = norm sh (ff_ctor_init init).
+Proof. exact (ffr_async_reset_immediate sh stages init i0 evs). Qed.
+Print Assumptions C17_ff_async_reset_immediate.
 
 (* --- AsyncFFSynchronizer / ResetSynchronizer ---
    af_rst pos i = the input is asserted (i for async_edge="pos", ~i for "neg"). *)
